@@ -136,7 +136,7 @@ def one_table(rng, tier, res, idx):
             fails.append((db.log[-1], "engine stopped answering: " + db.dead))
     finally:
         if fails:
-            fails = [(("# session (commands sent to `verifharness db`):\n" + "\n".join(db.log[-400:]) + "\n# failing statement: " + d), w) for d, w in fails]
+            fails = [(("# session (commands sent to `verifharness db`):\n" + "\n".join(db.log[-4000:]) + "\n# failing statement: " + d), w) for d, w in fails]
         db.destroy()
         ref.close()
     return fails
@@ -191,6 +191,20 @@ def known_probes(res):
         if got != "ok:":
             res.known_hits["F-NULL-KEY"] = ("a NULL in an indexed column is indexed under the type's zero value; an index scan that reaches it aborts the statement: "
                                             "SELECT b FROM q WHERE a = 0 answers %s, reference: no rows" % got[:60])
+    finally:
+        db.destroy()
+    # a row that does not fit into an empty page: TableHeap.InsertTuple walks / allocates pages forever (Props/C14Heap.v:
+    # insert_oversize_never_returns).  The statement is given 1.2 s, then the process is killed and its files removed.
+    db = DB(mem_kb=4000)
+    try:
+        if db.open().startswith("ok"):
+            ncol = 18
+            db.sql("CREATE TABLE wide(%s);" % ", ".join("c%d varchar(255)" % i for i in range(ncol)))
+            ok_small = db.sql("INSERT INTO wide(%s) VALUES (%s);" % (",".join("c%d" % i for i in range(ncol)), ", ".join("'s'" for _ in range(ncol))))
+            r = db.cmd("sql INSERT INTO wide(%s) VALUES (%s);" % (",".join("c%d" % i for i in range(ncol)), ", ".join("'%s'" % ("x" * 240) for _ in range(ncol))), timeout=1.2)
+            if ok_small.startswith("ok") and db.dead:
+                res.known_hits["F-ROW-TOO-LARGE"] = ("an INSERT whose row is larger than a page can hold (18 varchar(255) columns with 240-character values: 4.4 KB) never returns: "
+                                                     "the table heap keeps allocating and linking new pages (the db file grows by tens of MB per second)")
     finally:
         db.destroy()
 
